@@ -61,6 +61,7 @@ Guard(e) ==
     [] e.ev = "Copy" -> alive[e.v] /\ e.w \in FreeVars /\ e.b \in FreeBCs
     [] e.ev = "SolveExplicit" -> alive[e.v] /\ e.r \in FreeVars
     [] e.ev = "SolveMatrix" -> e.r \in FreeVars /\ e.b \in FreeBCs
+    [] e.ev \in {"Drop", "DropBC"} -> TRUE
     [] OTHER -> FALSE
 
 TNewBC == Is("NewBC") /\ Guard(Ev) /\ NewBC(Ev.b) /\ Consume /\ UNCHANGED taint
@@ -89,6 +90,21 @@ TSolve == Is("SolvePDE") /\ Guard(Ev) /\ SolvePDEWith(Ev.v, Ev.entry) /\ Consume
 TExplicit == Is("SolveExplicit") /\ Guard(Ev) /\ SolveExplicitWith(Ev.v, Ev.r, Ev.entry) /\ Consume
              /\ UNCHANGED taint
 TMatrix == Is("SolveMatrix") /\ Guard(Ev) /\ SolveMatrix(Ev.r, Ev.b) /\ Consume /\ UNCHANGED taint
+\* the recorder saw the last reference to an object: its slot of the bounded pool is reused (FVLifecycle!Drop);
+\* an object the specification never created (its creation event was not enabled) is skipped silently
+Quiet == UNCHANGED <<vars>>
+TDrop ==
+  /\ Is("Drop")
+  /\ IF alive[Ev.v] THEN Drop(Ev.v) ELSE Quiet
+  /\ taint' = IF alive[Ev.v]
+              THEN taint \ ({Ev.v} \cup (IF UsersOf(bcOf[Ev.v]) = {Ev.v} THEN {bcOf[Ev.v]} ELSE {}))
+              ELSE taint
+  /\ Consume
+TDropBC ==
+  /\ Is("DropBC")
+  /\ IF bcAlive[Ev.b] /\ UsersOf(Ev.b) = {} THEN DropBC(Ev.b) ELSE Quiet
+  /\ taint' = taint \ {Ev.b}
+  /\ Consume
 TSkip ==
   /\ phase = "act" /\ l < Len(Trace) /\ ~Guard(Ev)
   /\ l' = l + 1 /\ phase' = "act"
@@ -156,7 +172,7 @@ Finish ==
 
 TInit == Init /\ l = 0 /\ phase = "act" /\ mism = {} /\ viol = {} /\ taint = {} /\ pre = [needs |-> FALSE]
 TNext == TNewBC \/ TNewVar \/ TEditBC \/ TAssign \/ TSetFlag \/ TApply \/ TUpdate \/ TCopy \/ TSolve
-         \/ TExplicit \/ TMatrix \/ TSkip \/ Sync \/ Finish
+         \/ TExplicit \/ TMatrix \/ TDrop \/ TDropBC \/ TSkip \/ Sync \/ Finish
 TSpec == TInit /\ [][TNext]_<<vars, tvars>>
 \* every event was consumed and the verdict printed
 TraceAccepted == TLCGet("stats").diameter >= Len(Trace) + 2
